@@ -64,6 +64,11 @@ def step_jobs(tier):
         # window at the bottom of the TTL range (MinTTL 1..3): tables indexed by TTL vs by TTL-MinTTL differ here
         J("sack", "Verif_Step_sack_arb", ["accepted-icmp", "rejected"], L=56, loosen=1, max=3, W=3),
         J("sack", "Verif_Step_sack_layout", ["accepted-sack", "rejected"], loosen=0, max=3, W=3, blocks=1),
+        # the write of a probe takes time: the RTT runs from the hand-over, not from the return of the write
+        J("icmp", "Verif_Step_icmp4_arb", ["accepted-hop", "accepted-dest", "rejected"], L=56, writeTakes=1),
+        J("udp", "Verif_Step_udp4_arb", ["accepted-hop", "accepted-dest", "rejected"], L=56, loosen=0, writeTakes=1),
+        J("tcp", "Verif_Step_tcp_arb", ["accepted-hop", "accepted-dest", "rejected"], L=56, paris=0, loosen=0, writeTakes=1),
+        J("sack", "Verif_Step_sack_layout", ["accepted-sack", "rejected"], loosen=1, max=30, blocks=1, writeTakes=1),
         # SACK option whose length byte is arbitrary (partial trailing blocks)
         J("sack", "Verif_Step_sack_layout", ["accepted-sack", "rejected", "not-supported"], loosen=1, max=30, blocks=1, anylen=1),
     ]
